@@ -221,6 +221,8 @@ struct ResTables {
     host_owned: Vec<(usize, u32)>,
     /// own handles of imported resources sitting in the guest's table that nobody consumed yet
     guest_owned: Vec<(usize, u32)>,
+    /// live own handles the guest holds that no export call is ever lent
+    bystanders: Vec<(usize, u32)>,
     reps: BTreeMap<u32, RepState>,
     arena: usize,
     arena_off: usize,
@@ -251,6 +253,8 @@ struct Call {
     failed: bool,
     import_seen: bool,
     ret_bits: u64,
+    /// handle indices lent / given to the guest for this (export) call
+    lent: BTreeSet<u32>,
 }
 
 struct Host {
@@ -929,6 +933,24 @@ fn run_dtor(res: usize, rep: u32) {
 pub extern "C" fn cg_host_resource_drop(res: u32, handle: i32) {
     let hidx = handle as u32;
     h().res.drops += 1;
+    // while an export runs, the guest may only drop what that call lent or gave it
+    let in_export = h().call.as_ref().map_or(None, |c| if c.dir == Dir::Export { Some((c.id, c.lent.contains(&hidx))) } else { None });
+    if let Some((id, was_lent)) = in_export {
+        let entry = h().res.table.get(&hidx).cloned();
+        let mine = matches!(&entry, Some(e) if e.call == Some(id));
+        if !mine && !was_lent {
+            let state = match &entry {
+                Some(e) => format!("a live {} handle of {} that this call was never lent", if e.own { "own" } else { "borrow" }, res_name(e.res)),
+                None => "not a handle the host ever lent to this call (not live)".to_string(),
+            };
+            violation(
+                "c-res:drop-of-handle-not-lent",
+                &format!("during an export call the bindings called [resource-drop] of {} on handle {handle}: {state}", res_name(res as usize)),
+                json!({"handle": handle}),
+            );
+            return;
+        }
+    }
     match h().res.table.get(&hidx).cloned() {
         Some(e) if e.res == res as usize => {
             h().res.table.remove(&hidx);
@@ -1052,6 +1074,58 @@ fn res_check_lifted_import_args(fi: usize, tys: &[Type], got: Vec<Val>) -> Vec<V
 
 // ------------------------------------------------------------------ driver
 
+/// a number that collides with the host's handle table: a live handle nobody
+/// lent to the call, or a number that is not live at all
+fn colliding_number(res: usize, rng: &mut vkit::Rng) -> u32 {
+    if rng.chance(1, 2) {
+        let live = h().res.bystanders.iter().find(|b| b.0 == res && h().res.table.contains_key(&b.1)).map(|b| b.1);
+        match live {
+            Some(i) => i,
+            None => {
+                let i = new_index(Entry { res, own: true, rep: 0, call: None });
+                h().res.bystanders.push((res, i));
+                h().res.guest_owned.push((res, i));
+                i
+            }
+        }
+    } else {
+        h().res.next + 1000 + rng.below(50) as u32
+    }
+}
+
+/// Where a variant/option/result has a `borrow<imported resource>` case, give the
+/// scalar payloads of its *sibling* cases (which share the borrow's flat slot)
+/// values that collide with handle numbers: only the borrow case lends a handle.
+fn collide(a: &Abi, fi: usize, ty: &Type, v: &Val, rng: &mut vkit::Rng) -> Val {
+    match (a.shape(ty), v) {
+        (Shape::Variant(cases, _), Val::Variant(c, Some(p))) => {
+            let bres = cases.iter().flatten().find_map(|t| match a.dealias(t) {
+                Type::Id(id) => match &h().resolve.types[id].kind {
+                    TypeDefKind::Handle(Handle::Borrow(r)) => res_by_type(fi, *r).filter(|i| !h().resources[*i].exported),
+                    _ => None,
+                },
+                _ => None,
+            });
+            let Some(t) = &cases[*c as usize] else { return v.clone() };
+            let np = match (bres, a.shape(t), &**p) {
+                (Some(res), Shape::U32, Val::U32(_)) => Val::U32(colliding_number(res, rng)),
+                (Some(res), Shape::S32, Val::S32(_)) => Val::S32(colliding_number(res, rng) as i32),
+                (Some(res), Shape::U64, Val::U64(_)) => {
+                    let hi = if rng.chance(1, 2) { 0 } else { rng.next() << 32 };
+                    Val::U64(hi | colliding_number(res, rng) as u64)
+                }
+                (Some(res), Shape::S64, Val::S64(_)) => Val::S64(((rng.next() << 32) | colliding_number(res, rng) as u64) as i64),
+                _ => collide(a, fi, t, p, rng),
+            };
+            Val::Variant(*c, Some(Box::new(np)))
+        }
+        (Shape::List(t), Val::List(xs)) | (Shape::FixedList(t, _), Val::List(xs)) => Val::List(xs.iter().map(|x| collide(a, fi, &t, x, rng)).collect()),
+        (Shape::Record(fs), Val::Record(xs)) => Val::Record(fs.iter().zip(xs).map(|(t, x)| collide(a, fi, t, x, rng)).collect()),
+        (Shape::Map(k, vt), Val::Map(xs)) => Val::Map(xs.iter().map(|(p, q)| (p.clone(), collide(a, fi, &vt, q, rng))).collect::<Vec<_>>().into_iter().map(|(p, q)| { let _ = &k; (p, q) }).collect()),
+        _ => v.clone(),
+    }
+}
+
 fn values_for(fi: usize, set: u64) -> (Vec<Val>, Option<Val>) {
     let a = abi();
     let hh = h();
@@ -1116,6 +1190,7 @@ fn begin_call(dir: Dir, fi: usize, set: u64, args: Vec<Val>, result: Option<Val>
         failed: false,
         import_seen: false,
         ret_bits: 0,
+        lent: h().res.table.iter().filter(|(_, e)| e.call == Some(id)).map(|(k, _)| *k).collect(),
     });
 }
 
@@ -1171,6 +1246,10 @@ fn run_export(fi: usize, set: u64) {
         }
         h().report.count(&format!("calls_skipped: {e}"));
         return;
+    }
+    if h().mode_c11 {
+        let mut rng = vkit::Rng::new(h().seed ^ 0xC011_1DE ^ ((fi as u64) << 20) ^ set);
+        args = tys.iter().zip(&args).map(|(t, v)| collide(&a, fi, t, v, &mut rng)).collect();
     }
     let sig = a.signature(&tys, f.func.result.as_ref(), SigKind::SyncLift);
     if !plan_core_ok(fi, &sig) {
